@@ -171,15 +171,18 @@ def rule_plumbing(ck: Check, repo: Repo) -> None:
         raise AnalysisError("anchor vanished: command annotate")
     aq = repo.qualname_of(an)
     check_forward(r, repo, aq, "add_header_to_file", f"{AN}.add_header_to_file", {
-        "path": "path", "reuse_info": "get_reuse_info(copyrights, licenses, contributors, copyright_prefix, year)",
+        "path": "path", "reuse_info": "get_reuse_info(copyrights, licenses, contributors, copyright_prefix, get_year(years, exclude_year))",
         "style": "style", "force_multi": "multi_line", "skip_existing": "skip_existing",
         "skip_unrecognised": "skip_unrecognised", "fallback_dot_license": "fallback_dot_license",
         "merge_copyrights": "merge_copyrights", "replace": "not no_replace",
     }, skip_self=False)
     # template / commented come from get_template(template_str, project)
     src = ast.unparse(an)
+    ahf = find_calls(an, lambda c, f: f == "add_header_to_file")
+    from ..rules import deep_text
+    gri = [deep_text(an, kw.value) for c in ahf for kw in c.keywords if kw.arg == "reuse_info"]
     ok = "template, commented = get_template(template_str, project)" in src and "template=template" in src and \
-        "template_is_commented=commented" in src and "year = get_year(years, exclude_year)" in src
+        "template_is_commented=commented" in src and bool(gri) and all("get_year(years, exclude_year)" in g for g in gri)
     r.instance("template-plumbing", {"ok": ok})
     if not ok:
         r.violation(aq, "template plumbing", "template and its `commented` flag must come from get_template(template_str, project)",
